@@ -87,7 +87,15 @@ func main() {
 	replay := flag.String("replay", "", "re-execute the case recorded in this file on the implementation")
 	worker := flag.Bool("worker", false, "internal: execute cases read from stdin, one JSON object per line")
 	facts := flag.String("facts", "", "write the facts extracted from /repo's source as a Lean file and exit")
+	record := flag.String("record-c18", "", "record the C18 corpus into this file and exit (done once; the file is committed)")
 	flag.Parse()
+	if *record != "" {
+		if err := recordC18(*record); err != nil {
+			fmt.Fprintln(os.Stderr, "recording failed:", err)
+			os.Exit(4)
+		}
+		return
+	}
 	if *facts != "" {
 		if err := writeFacts(*facts); err != nil {
 			fmt.Fprintln(os.Stderr, "fact extraction failed:", err)
